@@ -375,9 +375,26 @@ HEADER = '''From Coq Require Import ZArith QArith List. Import ListNotations.
 From PV Require Import C04.Model. Close Scope Q_scope. Open Scope Z_scope.'''
 
 
-def qt(x):
-    fr = Fraction(x)
-    return '(q %s %d)' % (C.zlit(fr.numerator), fr.denominator)
+def m2e(x, keep=None):
+    """x = m * 2**e exactly (keep=None) or truncated towards zero to `keep` significant bits"""
+    if x == 0.0:
+        return 0, 0
+    mant, exp = math.frexp(x)
+    m = int(mant * (1 << 53))
+    e = exp - 53
+    if keep is not None and m.bit_length() > keep:
+        sh = m.bit_length() - keep
+        m >>= sh
+        e += sh
+    while m % 2 == 0:
+        m //= 2
+        e += 1
+    assert keep is not None or Fraction(m) * Fraction(2) ** e == Fraction(x)
+    return m, e
+
+
+def qt(x, keep=None):
+    return '(q %s %s)' % tuple(C.zlit(v) for v in m2e(x, keep))
 
 
 def cell_t(d, r):
@@ -402,9 +419,14 @@ def rec_term(rec):
 
 def case_term(case, res, with_rec=True):
     ok = res['ok']
-    out = ['(cn %d %d %s %d)' % (i, k, C.zlit(Fraction(d).numerator), Fraction(d).denominator)
+    out = ['(cn %d %d %s %s)' % ((i, k) + tuple(C.zlit(v) for v in m2e(d)))
            for i, k, d in zip(ok['m1'], ok['m2'], ok['d'])]
-    sep = C.coq_list([C.coq_list([qt(x) for x in row]) for row in res['sep']])
+    # entries farther than 1.5 L that the implementation did not return are passed truncated to 12 significant bits
+    # (a lower bound that is still > 1.4 L): the checker only ever asks of them "is it below L?"
+    returned = set(zip(ok['m1'], ok['m2']))
+    far = 1.5 * case['L']
+    sep = C.coq_list([C.coq_list([qt(x, 12 if (x > far and (i, k) not in returned) else None) for k, x in enumerate(row)])
+                      for i, row in enumerate(res['sep'])])
     return '(mkcase %d %s %d %s %s %s)' % (case['maxmatch'], qt(case['L']), len(case['ra2']), sep, C.coq_list(out),
                                             rec_term(res.get('rec')) if with_rec else 'None')
 
